@@ -1,0 +1,89 @@
+//go:build verif
+
+// Contracts for /verif/govc (comment-only; see /verif/DESIGN.md section 3.2).
+package dcs
+
+// ---- C15: path normal form ------------------------------------------------------------------------------
+// JoinPath(a, b) = a + "/" + b (strings.Join): for two parts the result contains at least the separator.
+//@ func dcs.JoinPath
+//@   flags assumed pure
+//@   ensures nonempty: len(parts) >= 2 ==> len(result) >= 1
+
+//@ func (*dcs.zkDCS).buildFullPath
+//@   requires nonnil [safety]: z != nil && z.config != nil
+//@   loop 1 invariant idx: 0 <= rangeiter && rangeiter < len(res) && 0 <= j && j <= rangeiter
+//@   loop 1 invariant len: len(res) == loopentry(len(res))
+//@   loop 1 invariant tail: forall k int :: rangeiter <= k && k < len(res) ==> res[k] == loopentry(res)[k]
+//@   loop 1 invariant prev: rangeiter >= 1 ==> j >= 1 && res[rangeiter - 1] == loopentry(res)[rangeiter - 1] && (res[j - 1] == bsep <==> loopentry(res)[rangeiter - 1] == bsep)
+//@   loop 1 invariant nodouble: forall k int :: 0 < k && k < j ==> !(res[k] == bsep && res[k - 1] == bsep)
+//@   loop 1 invariant kept_first: rangeiter >= 1 ==> res[0] == loopentry(res)[0]
+//@   assert_at return#* C15.no_double_sep [C15]: forall k int :: 0 < k && k < len(res) ==> !(res[k] == bsep && res[k - 1] == bsep)
+//@   assert_at return#* C15.no_trailing_sep [C15]: len(res) > 0 ==> res[len(res) - 1] != bsep
+//@   assert_at return#* C15.result_is_res [C15]: len(result) == len(res)
+
+// ---- C15: data operations (client side) -----------------------------------------------------------------
+
+//@ func (*dcs.zkDCS).create
+//@   ensures C15.create_exists [C15]: (result == ErrExists) <==> old(zk_exists)[resultof("buildFullPath", 1)]
+//@   ensures C15.create_ok [C15]: result == nil ==> zk_exists[resultof("buildFullPath", 1)] && (zk_ephemeral[resultof("buildFullPath", 1)] <==> flags % 2 == 1)
+//@   ensures C15.create_once [C15]: e_zkCreate == old(e_zkCreate) + 1 && e_zkSet == old(e_zkSet) && e_zkDelete == old(e_zkDelete)
+//@   assert_at retryCreate#1 C15.create_flags [C15]: callarg2 == flags && callarg0 == fullPath
+
+//@ func (*dcs.zkDCS).Create
+//@   assert_at create#1 C15.plain_create [C15]: callarg2 == 0 && callarg0 == path
+//@ func (*dcs.zkDCS).CreateEphemeral
+//@   assert_at create#1 C15.ephemeral_create [C15]: callarg2 == zk.FlagEphemeral && callarg0 == path
+
+//@ func (*dcs.zkDCS).Get
+//@   ensures C15.get_notfound [C15]: errIs(resultof("retryGet", 1, 2), zk.ErrNoNode) ==> result == ErrNotFound
+//@   ensures C15.get_malformed [C15]: resultof("retryGet", 1, 2) == nil && resultof("json.Unmarshal", 1) != nil ==> result == ErrMalformed
+//@   ensures C15.get_ok [C15]: result == nil ==> resultof("retryGet", 1, 2) == nil && resultof("json.Unmarshal", 1) == nil
+//@   ensures C15.get_distinct [C15]: ErrNotFound != ErrMalformed && (result == ErrNotFound ==> !zk_exists[resultof("buildFullPath", 1)])
+//@   ensures C15.get_pure [C15]: e_zkCreate == old(e_zkCreate) && e_zkSet == old(e_zkSet) && e_zkDelete == old(e_zkDelete)
+
+//@ func (*dcs.zkDCS).Delete
+//@   ensures C15.delete_idempotent [C15]: errIs(resultof("retryGet", 1, 2), zk.ErrNoNode) ==> result == nil && e_zkDelete == old(e_zkDelete)
+//@   ensures C15.delete_absent [C15]: !old(zk_exists)[resultof("buildFullPath", 1)] ==> e_zkDelete == old(e_zkDelete)
+//@   ensures C15.delete_ok [C15]: result == nil ==> !zk_exists[resultof("buildFullPath", 1)]
+//@   ensures C15.delete_only [C15]: e_zkCreate == old(e_zkCreate) && e_zkSet == old(e_zkSet) && e_zkDelete <= old(e_zkDelete) + 1
+//@   assert_at retryDelete#1 C15.delete_versioned [C15]: callarg0 == fullPath && callarg1 == stat.Version && resultof("retryGet", 1, 2) == nil
+
+//@ func (*dcs.zkDCS).GetChildren
+//@   ensures C15.children_notfound [C15]: errIs(resultof("retryChildren", 1, 2), zk.ErrNoNode) ==> result1 == ErrNotFound && result0 == nil
+//@   ensures C15.children_pure [C15]: e_zkCreate == old(e_zkCreate) && e_zkSet == old(e_zkSet) && e_zkDelete == old(e_zkDelete)
+
+//@ func (*dcs.zkDCS).makePath
+//@   loop 1 invariant quiet: e_zkCreate == old(e_zkCreate) && zk_ephemeral == old(zk_ephemeral) && zk_exists == old(zk_exists)
+//@   loop 2 invariant quiet: e_zkCreate == old(e_zkCreate) && zk_ephemeral == old(zk_ephemeral) && zk_exists == old(zk_exists)
+//@   loop 3 invariant plain: (forall p string :: zk_ephemeral[p] ==> old(zk_ephemeral)[p]) && e_zkSet == old(e_zkSet) && e_zkDelete == old(e_zkDelete)
+//@   ensures C15.parents_plain [C15]: (forall p string :: zk_ephemeral[p] ==> old(zk_ephemeral)[p]) && e_zkSet == old(e_zkSet) && e_zkDelete == old(e_zkDelete)
+//@   assert_at retryCreate#1 C15.parents_flags [C15]: callarg2 == 0
+
+//@ func (*dcs.zkDCS).set
+//@   ensures C15.set_never_silently_ephemeral [C15]: flags % 2 == 0 ==> (forall p string :: zk_ephemeral[p] ==> old(zk_ephemeral)[p])
+//@   ensures C15.set_plain_to_ephemeral_refused [C15]: flags % 2 == 1 && resultof("retryGet", 1, 2) == nil && !old(zk_ephemeral)[resultof("buildFullPath", 1)] ==> result != nil && e_zkSet == old(e_zkSet) && e_zkCreate == old(e_zkCreate)
+//@   ensures C15.set_nodelete [C15]: e_zkDelete == old(e_zkDelete)
+//@   assert_at retryCreate#1 C15.set_create_flags [C15]: callarg2 == flags && callarg0 == fullPath && resultof("makePath", 1) == nil
+//@   assert_at retrySet#1 C15.set_versioned [C15]: callarg0 == fullPath && callarg2 == stat.Version
+//@   assert_at makePath#1 C15.set_creates_parents [C15]: errIs(resultof("retryGet", 1, 2), zk.ErrNoNode)
+
+//@ func (*dcs.zkDCS).Set
+//@   assert_at set#1 C15.plain_set [C15]: callarg2 == 0 && callarg0 == path
+//@ func (*dcs.zkDCS).SetEphemeral
+//@   assert_at set#1 C15.ephemeral_set [C15]: callarg2 == zk.FlagEphemeral && callarg0 == path
+
+// ---- C03: lock recipe (client side, one process) ------------------------------------------------------------
+
+//@ func (*dcs.zkDCS).AcquireLock
+//@   assert_at retryCreate#1 C03.lock_ephemeral [C03]: callarg2 == zk.FlagEphemeral && callarg0 == fullPath && errIs(resultof("retryGet", 1, 2), zk.ErrNoNode)
+//@   assert_at return#* C03.lock_true_cases [C03]: result ==> (reached("time.Since", 1) && resultof("time.Since", 1) < z.config.LockHeldTTL) || (reached("retryCreate", 1) && resultof("retryCreate", 1, 1) == nil) || (reached("json.Unmarshal", 1) && resultof("json.Unmarshal", 1) == nil && owner == self && resultof("retryGet", 1, 2) == nil)
+//@   assert_at return#* C03.lock_read_error_false [C03]: reached("retryGet", 1) && resultof("retryGet", 1, 2) != nil && !errIs(resultof("retryGet", 1, 2), zk.ErrNoNode) ==> !result
+//@   ensures C03.lock_no_delete [C03]: e_zkDelete == old(e_zkDelete) && e_zkSet == old(e_zkSet) && e_zkCreate <= old(e_zkCreate) + 1
+
+//@ func (*dcs.zkDCS).ReleaseLock
+//@   assert_at retryDelete#1 C03.release_own_only [C03]: owner == resultof("getSelfLockOwner", 1) && callarg0 == fullPath && callarg1 == stat.Version && resultof("json.Unmarshal", 1) == nil && reached("Delete", 1)
+//@   ensures C03.release_frame [C03]: e_zkCreate == old(e_zkCreate) && e_zkSet == old(e_zkSet) && e_zkDelete <= old(e_zkDelete) + 1
+
+//@ func (*dcs.zkDCS).handleSessionEvent
+//@   ensures C03.session_lost_clears_cache [C03]: ev.State != zk.StateHasSession ==> reached("Clear", 1)
+//@   ensures C03.session_frame [C03]: e_zkCreate == old(e_zkCreate) && e_zkSet == old(e_zkSet) && e_zkDelete == old(e_zkDelete)
